@@ -54,7 +54,7 @@ RULE = ("a case is (task kind and inputs, worker, how the worker was configured:
         "non-trivial = the job's graph holds at least one live resource (event loop, process pool) and the job was "
         "run in the receiving interpreter")
 
-OBJ_CLASSES = ("Job", "Submitter", "Audit", "Result")
+OBJ_CLASSES = ("Job", "Submitter", "Audit", "Result", "Runtime")
 
 
 # ====================================================================================== child side
@@ -68,6 +68,10 @@ def _defs():
     @python.define(outputs={"out": str})
     def Cat(s: str, n: int) -> str:
         return s * n
+
+    @python.define(outputs={"out": int})
+    def Failing(a: int, b: int) -> int:
+        raise ValueError("a + b is undefined today")
 
     Echo = shell.define("echo <x:int> <word:str>")
 
@@ -92,6 +96,8 @@ def _defs():
         k = spec["kind"]
         if k == "add":
             return Add(a=spec["a"], b=spec["b"])
+        if k == "failing":
+            return Failing(a=spec["a"], b=spec["b"])
         if k == "cat":
             return Cat(s=spec["s"], n=spec["n"])
         if k == "echo":
@@ -220,14 +226,32 @@ def class_table(root):
     return table
 
 
-def outputs_repr(result):
+def outputs_repr(result, strict=False):
+    """every attribute of a Result, by type and value.  The runtime figures (memory/cpu peaks) differ from run to
+    run, so they are compared by value only between copies of the same result (strict)."""
     from pydra.utils.general import attrs_values
     if result is None:
         return None
     out = None
     if result.outputs is not None:
         out = {k: repr(v) for k, v in sorted(attrs_values(result.outputs).items()) if not k.startswith("_")}
-    return {"errored": bool(result.errored), "outputs": out, "cache_dir": os.path.basename(str(result.cache_dir))}
+    rt = result.runtime
+    if rt is None:
+        runtime = None
+    else:
+        try:
+            vals = attrs_values(rt)
+            runtime = {k: (repr(v) if strict else type(v).__name__) for k, v in sorted(vals.items())}
+        except Exception:
+            runtime = "not an attrs object: " + (repr(rt) if strict else "")
+    rep = {"errored": bool(result.errored), "errored_type": type(result.errored).__name__,
+           "outputs": out, "outputs_type": type(result.outputs).__name__,
+           "runtime": runtime, "runtime_type": type(rt).__name__,
+           "cache_dir": os.path.basename(str(result.cache_dir)), "cache_dir_type": type(result.cache_dir).__name__}
+    if strict:
+        rep["task_type"] = type(result.task).__name__
+        rep["task"] = _fingerprint(result.task) if result.task is not None else None
+    return rep
 
 
 # what the caller configured: constructor arguments of Job / Submitter / Audit, and the worker keyword arguments below
@@ -261,18 +285,19 @@ def child_send(root):
         try:
             # reference run in this process
             ref = make(c["task"])
-            with Submitter(cache_root=os.path.join(d, "cacheB"), worker="debug") as sub:
+            rkw = {"audit_flags": AuditFlag.RESOURCE} if c["audit"] == "all" else {}
+            with Submitter(cache_root=os.path.join(d, "cacheB"), worker="debug", **rkw) as sub:
                 rec["expected"] = outputs_repr(sub(ref, raise_errors=False))
             # results written by cf worker processes, read back by this (the submitting) process
             if c.get("cf_run"):
-                with Submitter(cache_root=os.path.join(d, "cacheC"), worker="cf", n_procs=2) as sub:
+                with Submitter(cache_root=os.path.join(d, "cacheC"), worker="cf", n_procs=2, **rkw) as sub:
                     rec["cf_result"] = outputs_repr(sub(make(c["task"]), raise_errors=False))
             task = make(c["task"])
             how = c.get("how", "name")
             kw = dict(WORKER_OBJ_KW[c["worker"]] if how in ("object", "mutated") else WORKER_KW[c["worker"]])
             akw = {}
-            if c["audit"] == "prov":
-                akw = dict(audit_flags=AuditFlag.PROV, messengers=FileMessenger(),
+            if c["audit"] in ("prov", "all"):
+                akw = dict(audit_flags=AuditFlag.PROV if c["audit"] == "prov" else AuditFlag.ALL, messengers=FileMessenger(),
                            messenger_args={"message_dir": os.path.join(d, "msgs")})
             if how == "object":       # the worker is handed over as an already configured object
                 from pydra.workers.base import Worker
@@ -323,10 +348,17 @@ def child_recv(root):
                     else:
                         res = job.run()
                     rec["result"] = outputs_repr(res)
+                    rec["result_strict"] = outputs_repr(res, strict=True)
+                    rec["result_graph"] = abstract(res)
+                    rec["result_table"] = class_table(res)
                 except Exception as e:     # a failing task: the errored result is what must come back
                     rec["run_exception"] = "%s: %s" % (type(e).__name__, str(e)[:300])
                     try:
-                        rec["result"] = outputs_repr(job.result())
+                        res = job.result()
+                        rec["result"] = outputs_repr(res)
+                        rec["result_strict"] = outputs_repr(res, strict=True)
+                        rec["result_graph"] = abstract(res)
+                        rec["result_table"] = class_table(res)
                     except Exception:
                         pass
             try:
@@ -356,7 +388,9 @@ def child_read(root):
                 res = load_result(chk, [Path(d) / "cacheA"])
                 rec["result"] = outputs_repr(res)
                 if res is not None:        # Result.__getstate__/__setstate__ once more, in this process
-                    rec["result_again"] = outputs_repr(cp.loads(cp.dumps(res)))
+                    rec["result_strict"] = outputs_repr(res, strict=True)
+                    rec["result_graph"] = abstract(res, after=True)
+                    rec["result_again"] = outputs_repr(cp.loads(cp.dumps(res)), strict=True)
         except Exception:
             import traceback
             rec["error"] = traceback.format_exc()[-3000:]
@@ -389,11 +423,11 @@ WORDS = ["hi", "a b", "x", "w_1", "w"]     # (no quote characters: `it's` makes 
 
 def gen_config(rng, i, worker=None):
     worker = worker or rng.choice(["debug", "debug", "cf", "cf", "slurm", "sge"])
-    kinds = ["add", "cat", "echo"] + (["chain", "fan", "mixed"] * 2 if worker in ("debug", "cf") else [])
+    kinds = ["add", "cat", "echo", "failing"] + (["chain", "fan", "mixed"] * 2 if worker in ("debug", "cf") else [])
     kind = rng.choice(kinds)
     task = {"kind": kind, "a": rng.randrange(0, 50), "b": rng.randrange(0, 50), "s": rng.choice(WORDS), "n": rng.randrange(0, 4)}
     return {"id": i, "task": task, "worker": worker, "how": rng.choice(["name", "object", "object", "mutated"]),
-            "audit": rng.choice(["none", "none", "prov"]), "run": True,
+            "audit": rng.choice(["none", "prov", "all", "all"]), "run": True,
             "cf_run": kind in ("add", "cat", "echo", "chain") and rng.random() < 0.3}
 
 
@@ -501,8 +535,11 @@ def judge(c, r):
     if "error" in s:
         bad.append(("the job could not be built or serialized", s["error"][-600:], "cloudpickle.dump(job) succeeds"))
         return bad
-    exp = s["expected"]
-    if c.get("cf_run") and s.get("cf_result") != exp:
+    def loose(x):     # between different runs of the same task: everything but the resource figures (Job.result() of an
+        return {k: w for k, w in x.items() if not k.startswith("runtime")} if isinstance(x, dict) else x   # errored job is synthetic)
+
+    exp = loose(s["expected"])
+    if c.get("cf_run") and loose(s.get("cf_result")) != exp:
         bad.append(("result written by a cf worker process, read by the submitting process", s.get("cf_result"), exp))
     if "error" in v:
         bad.append(("the job could not be loaded in the other process", v["error"][-600:], "cloudpickle.load succeeds"))
@@ -512,15 +549,18 @@ def judge(c, r):
     if v["checksum"] != s["checksum"]:
         bad.append(("cache identity of the deserialized job", v["checksum"], s["checksum"]))
     if c["run"]:
-        if v.get("result") != exp:
+        if loose(v.get("result")) != exp:
             bad.append(("outputs of the deserialized job run in the other process", v.get("result") or v.get("run_exception"), exp))
         if "error" in d:
             bad.append(("the result could not be read back", d["error"][-600:], "load_result succeeds"))
         else:
             if d.get("result") != v.get("result"):
                 bad.append(("result read back by the submitting side", d.get("result"), v.get("result")))
-            if d.get("result_again") != d.get("result"):
-                bad.append(("Result after another pickle round trip", d.get("result_again"), d.get("result")))
+            if "result_strict" in v and d.get("result_strict") != v.get("result_strict"):
+                bad.append(("every attribute (type and value) of the Result read back from _result.pklz",
+                            d.get("result_strict"), v.get("result_strict")))
+            if d.get("result_again") != d.get("result_strict"):
+                bad.append(("Result after another pickle round trip", d.get("result_again"), d.get("result_strict")))
     return bad
 
 
@@ -542,7 +582,7 @@ def run(ctx):
     out = Outcome(rule=RULE)
     dist = {"how_name": 0, "how_object": 0, "how_mutated": 0, "worker_debug": 0, "worker_cf": 0, "worker_slurm": 0, "worker_sge": 0, "audit_prov": 0, "cf_worker_runs": 0,
             "jobs_run_in_other_process": 0, "classes_in_tables": {}, "attributes_compared": 0}
-    for k in ("add", "cat", "echo", "chain", "fan", "mixed"):
+    for k in ("add", "cat", "echo", "failing", "chain", "fan", "mixed"):
         dist["task_" + k] = 0
     enc_cases, meta, seen = [], [], set()
     for c in configs:
@@ -552,6 +592,7 @@ def run(ctx):
         dist["how_" + c.get("how", "name")] += 1
         dist["task_" + c["task"]["kind"]] += 1
         dist["audit_prov"] += c["audit"] == "prov"
+        dist["audit_all_resource"] = dist.get("audit_all_resource", 0) + (c["audit"] == "all")
         dist["cf_worker_runs"] += bool(c.get("cf_run"))
         for what, obs, exp in judge(c, r):
             out.failures.append(Failure(case=pub, observed=obs, expected=exp, note=what, kind="spec"))
@@ -572,6 +613,17 @@ def run(ctx):
         for cls in s["table"]:
             dist["classes_in_tables"][cls] = dist["classes_in_tables"].get(cls, 0) + 1
         dist["attributes_compared"] += json.dumps(s["before"]).count('["data"') + json.dumps(s["before"]).count('["none"')
+        d = r.get("read")
+        if v and d and "result_graph" in v and "result_graph" in d:
+            e2 = Enc()
+            rterm = coqio.pair(e2.table(v["result_table"]), e2.val(v["result_graph"]), coqio.option(e2.val(d["result_graph"])),
+                               enc_req({"Result": ["outputs", "runtime", "errored", "cache_dir", "task"]}))
+            enc_cases.append(rterm)
+            meta.append({"case": dict(pub, object="the Result written by the other process, read back"), "table": v["result_table"],
+                         "term": rterm, "before": v["result_graph"], "after": d["result_graph"]})
+            dist["results_compared"] = dist.get("results_compared", 0) + 1
+            dist["results_with_runtime"] = dist.get("results_with_runtime", 0) + (v["result_strict"]["runtime_type"] != "NoneType")
+            dist["results_errored"] = dist.get("results_errored", 0) + bool(v["result_strict"]["errored"])
         ran = bool(v and "result" in v)
         dist["jobs_run_in_other_process"] += ran
         key = (json.dumps(c["task"], sort_keys=True), c["worker"], c.get("how", "name"), c["audit"])
